@@ -34,9 +34,11 @@ from .config import (SLEEP_TIMER, WAITING_CONN_TIMER,
                      LISTENING_TICKER, SEND_BUFFER_MAXIMUM_SIZE)
 from .config import CLOSED, I_OPEN, R_OPEN
 from .constants import DIAMETER_AGENT_CLIENT_MODE
+from .constants import DIAMETER_HEADER_LENGTH
 from .constants import DIAMETER_AGENT_SERVER_MODE
 from .constants import DIAMETER_AGENT_TRANSPORT_TYPE_TCP
 from .constants import DIAMETER_AGENT_TRANSPORT_TYPE_SCTP
+from . import exceptions
 from .exceptions import AVPParsingError
 from .exceptions import DiameterApplicationError
 from .exceptions import DiameterAssociationError
@@ -54,6 +56,12 @@ from .utils import is_base_answer
 
 diameter_conn_logger = logging.getLogger("DiameterConnection")
 diameter_logger = logging.getLogger("Diameter")
+
+#: Every error type the library may raise while decoding a byte stream.
+LIBRARY_ERRORS = [error for error in vars(exceptions).values() 
+                        if isinstance(error, type) and 
+                           issubclass(error, BaseException) and 
+                           error.__module__ == exceptions.__name__]
 
 
 def make_logging(msg, disable_else=False):
@@ -100,6 +108,7 @@ class DiameterAssociation(object):
 
         self._recv_messages = queue.Queue()
         self._send_messages = queue.Queue()
+        self._recv_stream_remainder = b""
 
         self.postprocess_recv_messages = queue.Queue() 
         self.postprocess_recv_messages_ready = threading.Event()
@@ -168,30 +177,60 @@ class DiameterAssociation(object):
 
             self.lock.acquire()
 
-            if self.transport is None:
-                break
-
-            data_stream = copy.copy(self.transport._recv_data_stream)
-            self.transport._recv_data_stream = b""
-            self.transport._recv_data_available.clear()
-
-            diameter_conn_logger.debug("Grabbing data stream from "\
-                                       "Transport Layer to Diameter Layer.")
-
             try:
-                msgs = DiameterMessage.load(data_stream)
+                transport = self.transport
+                if transport is None:
+                    break
+
+                #: The transport thread appends to `_recv_data_stream` under 
+                #: the very same lock.
+                transport.lock.acquire()
+                data_stream = self._recv_stream_remainder + \
+                                    copy.copy(transport._recv_data_stream)
+                transport._recv_data_stream = b""
+                transport._recv_data_available.clear()
+                transport.lock.release()
+
+                diameter_conn_logger.debug("Grabbing data stream from "\
+                                           "Transport Layer to Diameter Layer.")
+
+                #: TCP may deliver a message in several pieces: only whole 
+                #: messages are decoded, the rest waits for the next read.
+                complete = self.__get_complete_messages_length(data_stream)
+                self._recv_stream_remainder = data_stream[complete:]
+
+                msgs = DiameterMessage.load(data_stream[:complete])
                 for msg in msgs:
                     make_logging(msg, disable_else=True)
                     self._recv_messages.put(msg)
                 
                 diameter_conn_logger.debug(f"Found {len(msgs)} Diameter "\
                                            f"Message(s).")
-            except AVPParsingError:
-                diameter_conn_logger.exception(f"AVPParsingError has "\
-                                               f"been raised due stream: "\
-                                               f"{self.transport._recv_data_stream.hex()}")
 
-            self.lock.release()
+            except tuple(LIBRARY_ERRORS) as e:
+                self._recv_stream_remainder = b""
+                diameter_conn_logger.exception(f"{type(e).__name__} has "\
+                                               f"been raised due stream: "\
+                                               f"{data_stream.hex()}")
+
+            finally:
+                self.lock.release()
+
+
+    def __get_complete_messages_length(self, data_stream: bytes) -> int:
+        index = 0
+        while len(data_stream) - index >= DIAMETER_HEADER_LENGTH:
+            length = int.from_bytes(data_stream[index+1:index+4], byteorder="big")
+            if length < DIAMETER_HEADER_LENGTH:
+                #: Malformed: let DiameterMessage.load() reject it.
+                return len(data_stream)
+
+            if len(data_stream) - index < length:
+                break
+
+            index += length
+
+        return index
 
 
     def put_message_into_send_queue(self, msg: Type[DiameterMessage]) -> None:
